@@ -1,6 +1,7 @@
 import PyYetiVerif.Model.Coord
 import PyYetiVerif.Model.CoordRbe3
 import PyYetiVerif.Model.CoordChain
+import PyYetiVerif.Model.CoordRbe3Wrap
 /-! Line protocol for C14.  Floats travel as decimal `UInt64` bit patterns, in and out.
 
 A *world* `W` is   `N  (ref typ A3 B3 C3)×N   G  (0 | 1 q cin a3 cout)×G`
@@ -18,6 +19,10 @@ request                                 reply (all numbers space separated)
                                         formrbe3: `dep`, `i` = entry indices, `d`/`dof` = 1..6, `key` = uset
                                         row of the DOF, independent DOF in Ind_List order, `um` = 0 | 1 k key…
                                         (m-set DOF in UM_List order); reply `r c` + r*c numbers, or `raise`
+`rbe3w W id×G gdep dofdep ng (dof haswt wt nids id…)×ng um [np (id dof)×np]`
+                                        formrbe3 from its own arguments (`formrbe3W`): `id×G` = the ids of the G
+                                        entries of W, then GRID_dep, DOF_dep, the Ind_List groups, the UM_List
+                                        pairs; reply `r c` + numbers, or `raise`
 `bc N (cid ref typ A3 B3 C3)×N`         build_coords on the cards as given: `ok L (cid level)×L D (cid typ o3 T9)×D`
                                         | `err dup cid` | `err unresolved k id…` | `err refmissing cid ref` | `err diverges`
 `mk N (cid ref typ A3 B3 C3)×N`         mkusetcoordinfo(card, None, coordref) card by card with one dictionary:
@@ -181,6 +186,23 @@ def run : P String := do
         pure (e.1, (⟨g, ⟨e.2.2.1 - 1, by omega⟩, e.2.2.2⟩ : IndDof Float))
       else none) : Option _)
     match formRbe3 (fun A B => gaussTab A B) grids depg (dds.map (·.1 - 1)) (dds.map (·.2)) inds um nuset with
+    | none => pure "raise"
+    | some res =>
+      pure (s!"{res.length} {(res.head?.map List.length).getD 0} " ++ fFs res.flatten)
+  | "rbe3w" =>
+    let ids ← pMany w.grids.length pNat
+    let gdep ← pNat
+    let dofdep ← pNat
+    let ng ← pNat
+    let il ← pMany ng (do
+      let d ← pNat; let hw ← pNat; let wt ← pF; let n ← pNat; let is ← pMany n pNat
+      pure (⟨d, if hw == 1 then some wt else none, is⟩ : IndGroup Float))
+    let um ← (do
+      match (← pNat) with
+      | 0 => pure (none : Option (List (Nat × Nat)))
+      | _ => let k ← pNat; let ps ← pMany k (do let a ← pNat; let b ← pNat; pure (a, b)); pure (some ps))
+    pEnd
+    match formrbe3W (fun A B => gaussTab A B) (ids.zip w.grids) gdep dofdep il um with
     | none => pure "raise"
     | some res =>
       pure (s!"{res.length} {(res.head?.map List.length).getD 0} " ++ fFs res.flatten)
